@@ -710,8 +710,33 @@ func checkC04(c *Ctx, r *Report) {
 
 	// ---------- R5 ----------
 	r.Rule("C04-R5", "each engine's retry entry passes its own `endpoints` parameter, unchanged, as the candidate list of the retry loop, and the endpoint given to the per-attempt function is the one Select returned in the same iteration", 3)
-	for _, cs := range c.staticCallSites(func(ci callInfo) bool { return ci.Static == loopFn }) {
+	// the chain of forwarding entries above the loop (ProxyRequestToEndpoints → …WithRetry → loop): every function of the
+	// proxy packages that itself receives a candidate list and calls down this chain hands on its own parameter
+	chain := map[*ssa.Function]bool{loopFn: true}
+	for changed := true; changed; {
+		changed = false
+		for _, cs := range c.staticCallSites(func(ci callInfo) bool { return chain[ci.Static] }) {
+			f := cs.Parent()
+			if f == nil || f.Parent() != nil || chain[f] || !strings.Contains(fnPkgPath(f), "/adapter/proxy") {
+				continue
+			}
+			hasParam := false
+			for _, p := range f.Params {
+				if isEndpointSlice(p.Type()) {
+					hasParam = true
+				}
+			}
+			if hasParam {
+				chain[f] = true
+				changed = true
+			}
+		}
+	}
+	for _, cs := range c.staticCallSites(func(ci callInfo) bool { return chain[ci.Static] }) {
 		f := cs.Parent()
+		if !chain[f] {
+			continue // an entry that obtains the list itself (ProxyRequest): its provenance is C03-R1's business
+		}
 		key := fname(f) + ":candidate-list"
 		cc := getCall(cs)
 		okp := false
@@ -726,9 +751,9 @@ func checkC04(c *Ctx, r *Report) {
 			}
 		}
 		if okp {
-			r.OK("C04-R5", key, cs.Pos(), "the list handed to the retry loop is the function's own endpoints parameter")
+			r.OK("C04-R5", key, cs.Pos(), "the list handed down towards the retry loop is the function's own endpoints parameter")
 		} else {
-			r.Bad("C04-R5", key, cs.Pos(), "the candidate list handed to the retry loop is not the caller-computed list (re-queried, rebuilt or substituted): endpoints outside the request's candidate set can be dispatched to")
+			r.Bad("C04-R5", key, cs.Pos(), "the candidate list handed down towards the retry loop is not the caller-computed list (re-queried, rebuilt or substituted — for instance replaced by the healthy set when the caller's list is nil): endpoints outside the request's candidate set can be dispatched to")
 		}
 	}
 	for _, site := range sites {
@@ -812,6 +837,8 @@ func checkC04(c *Ctx, r *Report) {
 		if errors.Is(*syscallErr, syscall.ECONNRESET)`},
 		Mutant{Prop: "C04", Name: "neterr-not-wrapped", File: "internal/adapter/proxy/common/errors.go", Rule: "C04-R3",
 			Old: `return fmt.Errorf("network error after %.1fs - %w (check network connectivity to LLM backend)", duration.Seconds(), netErr)`, New: `return fmt.Errorf("network error after %.1fs - %v (check network connectivity to LLM backend)", duration.Seconds(), netErr)`},
+		Mutant{Prop: "C04", Name: "engine-entry-resolves-nil-list", File: "internal/adapter/proxy/sherpa/service.go", Rule: "C04-R5",
+			Old: "	return s.ProxyRequestToEndpointsWithRetry(ctx, w, r, endpoints, stats, rlog)\n}\n\n// GetStats", New: "	if endpoints == nil {\n		if healthy, herr := s.DiscoveryService.GetHealthyEndpoints(ctx); herr == nil {\n			endpoints = healthy\n		}\n	}\n	return s.ProxyRequestToEndpointsWithRetry(ctx, w, r, endpoints, stats, rlog)\n}\n\n// GetStats"},
 		Mutant{Prop: "C04", Name: "engine-requeries-discovery", File: "internal/adapter/proxy/olla/service_retry.go", Rule: "C04-R5",
 			Old: "	return s.retryHandler.ExecuteWithRetry(ctx, w, r, endpoints, s.Selector, stats, proxyFunc)", New: "	if fresh, ferr := s.DiscoveryService.GetHealthyEndpoints(ctx); ferr == nil && len(fresh) > len(endpoints) {\n		endpoints = fresh\n	}\n	return s.retryHandler.ExecuteWithRetry(ctx, w, r, endpoints, s.Selector, stats, proxyFunc)"},
 	)
